@@ -34,6 +34,13 @@ class TT(object):
         return tuple(bool(eval_expr(e, dict(zip(self.V, a)))) for a in self.ASG)
 
     def support(self, t):
+        memo = self.__dict__.setdefault('_sup_memo', {})
+        key = tuple(t)
+        if key not in memo:
+            memo[key] = frozenset(self._support(t))
+        return set(memo[key])
+
+    def _support(self, t):
         s = set()
         for i, v in enumerate(self.V):
             for a, bit in zip(self.ASG, t):
@@ -64,6 +71,14 @@ class TT(object):
         return itertools.product((False, True), repeat=len(self.ASG))
 
     def robdd_size(self, t, order):
+        """Number of non-terminal nodes of the reduced OBDD of t under `order` (memoised)."""
+        key = (tuple(t), tuple(order))
+        memo = self.__dict__.setdefault('_size_memo', {})
+        if key not in memo:
+            memo[key] = self._robdd_size(t, order)
+        return memo[key]
+
+    def _robdd_size(self, t, order):
         """Number of non-terminal nodes of the reduced OBDD of t under `order` (by subfunction count)."""
         # distinct non-constant subfunctions that depend on their top variable
         seen = set()
